@@ -148,8 +148,8 @@ def inject_structure(rng, mtx, objs, p_dup=0.3, p_dom=0.4):
 
 
 def dm_case(rng, nmax=7, mmax=5, nmin=1, mmin=1, modes=VALUE_MODES, positive=False,
-            wmode=None, omode=None, structure=True, big=0.15, int_dtypes=0.0, label_kinds=True, huge=0.0):
-    n, m = shape(rng, nmax, mmax, nmin, mmin, big=big, huge=huge)
+            wmode=None, omode=None, structure=True, big=0.15, int_dtypes=0.0, label_kinds=True, huge=0.0, bigmin=11):
+    n, m = shape(rng, nmax, mmax, nmin, mmin, big=big, huge=huge, bigmin=bigmin)
     mode = rng.choice(list(modes))
     if n >= min(HUGE_SIZES):
         # keep the exact rational arithmetic of the model cheap: short numerators and denominators only
